@@ -12,6 +12,11 @@ use crate::tokinizer::{Tokinizer};
 use regex::Regex;
 use crate::token::ui_token::{UiTokenType};
 
+/* Reads the digits of a based literal; accumulates in f64 so that literals of any length are accepted */
+fn parse_radix(text: &str, radix: u32) -> f64 {
+    text.chars().fold(0.0, |number, ch| number * radix as f64 + ch.to_digit(radix).unwrap_or(0) as f64)
+}
+
 pub fn number_regex_parser(config: &SmartCalcConfig, tokinizer: &mut Tokinizer, group_item: &[Regex]) {
     for re in group_item.iter() {
         for capture in re.captures_iter(&tokinizer.data.to_owned()) {
@@ -25,19 +30,19 @@ pub fn number_regex_parser(config: &SmartCalcConfig, tokinizer: &mut Tokinizer, 
 
             if let Some(binary) = capture.name("BINARY") {
                 parse_end = binary.end();
-                number = i64::from_str_radix(binary.as_str(), 2).unwrap() as f64;
+                number = parse_radix(binary.as_str(), 2);
                 number_type = NumberType::Binary;
                 number_match = capture.name("BINARY_FULL");
             }
             else if let Some(hex) = capture.name("HEX") { 
                 parse_end = hex.end();
-                number = i64::from_str_radix(hex.as_str(), 16).unwrap() as f64;
+                number = parse_radix(hex.as_str(), 16);
                 number_type = NumberType::Hexadecimal;
                 number_match = capture.name("HEX_FULL");
             }
             else if let Some(octal) = capture.name("OCTAL") { 
                 parse_end = octal.end();
-                number = i64::from_str_radix(octal.as_str(), 8).unwrap() as f64;
+                number = parse_radix(octal.as_str(), 8);
                 number_type = NumberType::Octal;
                 number_match = capture.name("OCTAL_FULL");
             }
